@@ -477,6 +477,20 @@ func (d *Drv) Sweep(deep bool) {
 			d.deepEntity(id, h, st)
 		}
 	}
+	// resources behave as a map from type to value (C16: none survive Reset)
+	for c := 0; c < u.N; c++ {
+		t := &u.Types[c]
+		want := m.Res.Has(c)
+		if t.HasRes(d.W) != want {
+			d.viol("C16", "resource-presence", "resource %s Has=%v, model %v", t.Name, t.HasRes(d.W), want)
+			continue
+		}
+		if want {
+			if v, ok, present := t.GetRes(d.W); !present || !ok || v != m.ResVal[c] {
+				d.viol("C16", "resource-value", "resource %s reads %d (present=%v consistent=%v), model %d", t.Name, v, present, ok, m.ResVal[c])
+			}
+		}
+	}
 	// alive count via Filter0 (needs a free lock bit: at most 64 queries may be open)
 	if d.Headroom() {
 		f0 := ecs.NewFilter0(d.W)
